@@ -24,7 +24,8 @@ namespace NetVerif.Proofs.C37
 open NetVerif NetVerif.Model.Dns NetVerif.Proofs.Dns
 
 theorem gen_limits_eq :
-    Gen.C36.nonEncodedNameMax = nameMax ∧ Gen.C36.ptrLimit = ptrLimit := by decide
+    Gen.C36.nonEncodedNameMax = nameMax ∧ Gen.C36.ptrLimit = ptrLimit ∧
+    Gen.C36.svcbRejectsCompressedTarget = true := by decide
 
 /-- **Pointer chains terminate**: with the model's fuel the loop of `Name.unpack` never runs out
 of fuel, for every input (at most 127 labels, 10 pointers and one final step are possible). -/
@@ -589,8 +590,8 @@ def RepackStatement : Prop :=
   ∀ (b : Bytes) (m : Message) (b' : Bytes), BytesWF b → unpackMessage b = .ok m →
     packMessage m = .ok b' → ∃ m', unpackMessage b' = .ok m' ∧ eraseLens m' = eraseLens m
 
-/-- **Re-pack stability**: an accepted message that `Pack` packs (it does unless a body with a
-decompressed SVCB target exceeds 65535 bytes) unpacks again to an equal message. -/
+/-- **Re-pack stability**: an accepted message that `Pack` packs (it does unless a body or section exceeds
+the wire limits) unpacks again to an equal message. -/
 theorem repack_holds : RepackStatement := by
   intro b m b' hb hu hp
   rcases unpackMessage_wf hb hu with ⟨hwf, ht⟩
